@@ -382,7 +382,7 @@ Definition run_session (ops : list op) (chunks : list text) : list result * opti
 
 (* ================================================================== powerman.c (CLI) + xread.c *)
 
-Inductive ev := EDiag (t : text) | EWarn (vers : text) | EFatal (site : nat).
+Inductive ev := EDiag (t : text) | EWarn (vers : text).      (* a 309 line; the version warning *)
 
 (* what has been printed so far; stdout as pieces, newest first *)
 Record couts := { o_out : list text; o_err : list ev; o_terms : list Z }.
@@ -502,12 +502,13 @@ Fixpoint requests (n : nat) (o : couts) (s : text) : couts * cres (Z * text) :=
 Definition exit_status (res : Z) : Z :=
   if negb (res =? 0) && (res mod 256 =? 0) then 1 else res mod 256.
 
-Record cli_result := { c_stdout : text; c_stderr : list ev; c_terms : list Z; c_status : Z }.
+(* c_fatal = Some site: the run ended in err_exit at that site (one more message on stderr, exit status 1) *)
+Record cli_result := { c_stdout : text; c_stderr : list ev; c_terms : list Z; c_status : Z; c_fatal : option nat }.
 
 Definition finish (x : couts * cres Z) : outcome cli_result :=
   match x with
-  | (o, CRet st) => Ok {| c_stdout := concat (frev (o_out o)); c_stderr := frev (o_err o); c_terms := frev (o_terms o); c_status := st |}
-  | (o, CFatal site) => Ok {| c_stdout := concat (frev (o_out o)); c_stderr := frev (EFatal site :: o_err o); c_terms := frev (o_terms o); c_status := 1 |}
+  | (o, CRet st) => Ok {| c_stdout := concat (frev (o_out o)); c_stderr := frev (o_err o); c_terms := frev (o_terms o); c_status := st; c_fatal := None |}
+  | (o, CFatal site) => Ok {| c_stdout := concat (frev (o_out o)); c_stderr := frev (o_err o); c_terms := frev (o_terms o); c_status := 1; c_fatal := Some site |}
   | (o, CMem site) => MemErr site
   end.
 
